@@ -63,7 +63,9 @@ func c20Jobs(r *R) {
 			mu.Unlock()
 		}
 	}
-	decide := func(n int, ctx vivid.SupervisionContext) vivid.SupervisionDecision { return vivid.SupervisionDecisionRestart }
+	decide := func(n int, ctx vivid.SupervisionContext) vivid.SupervisionDecision {
+		return vivid.SupervisionDecisionRestart
+	}
 	sup := &Spec{Name: "sup", Strategy: vivid.OneForOneStrategy(w.NewMaker("sup", decide))}
 	// the third owner is a namesake of the first under another parent (/sup2/j0 next to /sup/j0): jobs are keyed by the
 	// owner's path, not by its name
@@ -405,4 +407,3 @@ func c20Jobs(r *R) {
 		r.CountN("deliveries-checked", len(got))
 	}
 }
-
